@@ -40,6 +40,31 @@ def _case(draw, tier):
     topo = draw(gen.g1_nodes(3, 7, default_on_edge=0.0, prefix=draw(st.sampled_from(["n", "n", "n", "sub0_", "sub1"]))))
     for n in topo:
         n["defaults"] = {}
+    trap = False
+    if prob(draw, 0.15):
+        # names whose concatenations coincide: node `ld` with output `raw_txt`, node `ld_raw` with output `txt`, one consumer of both
+        # ("ld" + "_" + "raw_txt" == "ld_raw" + "_" + "txt"): two different dependencies into the same node
+        withouts = [i for i, x in enumerate(topo) if x["outs"]]
+        if len(withouts) >= 2 and max(withouts) < len(topo) - 1 or len(withouts) >= 3:
+            ia, ib = sorted(draw(st.permutations(withouts[:-1] if max(withouts) == len(topo) - 1 else withouts))[:2])
+            later = [i for i in range(len(topo)) if i > ib]
+            if later:
+                ic = draw(st.sampled_from(later))
+                ren_out = {topo[ia]["outs"][0]: "raw_txt", topo[ib]["outs"][0]: "txt"}
+                ren_node = {topo[ia]["name"]: "ld", topo[ib]["name"]: "ld_raw"}
+                for x in topo:
+                    x["name"] = ren_node.get(x["name"], x["name"])
+                    x["outs"] = [ren_out.get(o, o) for o in x["outs"]]
+                    x["params"] = list(dict.fromkeys(ren_out.get(q, q) for q in x["params"]))
+                for q in ("raw_txt", "txt"):
+                    if q not in topo[ic]["params"]:
+                        topo[ic]["params"].append(q)
+                trap = True
+    if prob(draw, 0.2):
+        # nodes marked hide=True are left out of diagrams (documented option), and so is every edge that touches them
+        for x in topo:
+            if prob(draw, 0.3):
+                x["hide"] = True
     if prob(draw, 0.3) and len(topo) >= 2:
         i = draw(st.integers(0, len(topo) - 2))
         j = draw(st.integers(i + 1, len(topo) - 1))
@@ -116,24 +141,26 @@ def _case(draw, tier):
                         if n.get("name") == w["name"] and n["k"] == "func":
                             n["wait_for"] = list(n.get("wait_for", [])) + [sig]
     mutex = None
-    if depth == 0 and not gates and prob(draw, 0.25):
-        mutex = {"param": draw(st.sampled_from(sorted({p for n in topo for p in n["params"]}) or ["zz"]))}
+    if depth == 0 and not gates and prob(draw, 0.4):
+        mutex = {"param": draw(st.sampled_from(sorted({p for n in topo for p in n["params"]} - {o for n in topo for o in n["outs"]}) or ["zz"]))}
     extra = []
     if mutex is not None and mutex["param"] != "zz" and mutex["param"] not in ref.producers(topo):
         pm = mutex["param"]
-        if draw(st.booleans()):
+        if prob(draw, 0.35):
             extra = [{"k": "func", "name": "br_a", "params": [], "defaults": {}, "outs": [pm]}, {"k": "func", "name": "br_b", "params": [], "defaults": {}, "outs": [pm]},
                      {"k": "ifelse", "name": "mx", "params": [], "defaults": {}, "t": "br_a", "f": "br_b", "table": [True, False]}]
         else:
             # the two exclusive producers live in SIBLING containers (same depth, same output name)
             mutex["nested"] = True
-            extra = [{"k": "graph", "name": c_, "flat_inputs": [], "flat_outputs": [pm], "renames": [],
-                      "graph": {"name": c_, "nodes": [{"k": "func", "name": b_, "params": [], "defaults": {}, "outs": [pm]}]}} for c_, b_ in (("cA", "br_a"), ("cB", "br_b"))]
+            same = prob(draw, 0.6)  # both containers wrap the SAME Graph object
+            extra = [{"k": "graph", "name": c_, "flat_inputs": [], "flat_outputs": [pm], "renames": [], **({"share": "mx"} if same else {}),
+                      "graph": {"name": "cAB" if same else c_, "nodes": [{"k": "func", "name": "br_s" if same else b_, "params": [], "defaults": {}, "outs": [pm]}]}} for c_, b_ in (("cA", "br_a"), ("cB", "br_b"))]
+            mutex["paths"] = ["cA/br_s", "cB/br_s"] if same else ["cA/br_a", "cB/br_b"]
             extra.append({"k": "ifelse", "name": "mx", "params": [], "defaults": {}, "t": "cA", "f": "cB", "table": [True, False]})
             depth = 1
     else:
         mutex = None
-    return {"topo": topo, "nodes": draw(gen.permuted(nodes + gates + extra)), "depth": depth, "thin": thin, "renamed": renamed, "mutex": mutex, "siblings": siblings}
+    return {"topo": topo, "nodes": draw(gen.permuted(nodes + gates + extra)), "depth": depth, "thin": thin, "renamed": renamed, "mutex": mutex, "siblings": siblings, "trap": trap}
 
 
 def strategy(tier):
@@ -145,6 +172,9 @@ def strategy(tier):
 # ------------------------------------------------------------------------------------
 
 
+HIDDEN = [set()]  # set per case: paths of leaves declared with hide=True (left out of diagrams together with their edges)
+
+
 def _walk(nodes, prefix, tree, leaf_path):
     for n in nodes:
         pid = prefix + n["name"]
@@ -153,6 +183,8 @@ def _walk(nodes, prefix, tree, leaf_path):
             _walk(n["graph"]["nodes"], pid + "/", tree, leaf_path)
         else:
             leaf_path[n["name"]] = pid
+            if n.get("hide"):
+                HIDDEN[0].add(pid)
 
 
 def _ancestors(pid):
@@ -180,8 +212,8 @@ def _deps(case, leaf_path, tree):
         for p in n["params"]:
             if p not in prod:
                 if mx and p == mx["param"]:
-                    for b in ("br_a", "br_b"):
-                        deps.append(("data", leaf_path[b], leaf_path[n["name"]], p))
+                    for bpath in (mx.get("paths") or [leaf_path["br_a"], leaf_path["br_b"]]):
+                        deps.append(("data", bpath, leaf_path[n["name"]], p))
                     continue
                 input_consumers.setdefault(p, []).append(leaf_path[n["name"]])
     def gates_of(nodes, prefix):
@@ -302,17 +334,55 @@ def _shape(p, c, rp, rc):
 
 
 
+PAIRS = [[]]  # set per case: (node path, output name) of every node with outputs, containers included
+
+
+def _data_id_collisions(dup, san=False):
+    """DATA node ids are built as data_<node id>_<output name>; with '_' inside names two different (node, output) pairs can
+    spell the same id.  Returns the colliding pairs when EVERY duplicated id is explained that way."""
+    out = []
+    for d in dup:
+        hits = [(pth, o) for pth, o in PAIRS[0] if (_san(f"data_{pth}_{o}") if san else f"data_{pth}_{o}") == d]
+        if len(set(hits)) < 2:
+            return []
+        out.append(sorted(set(hits)))
+    return out
+
+
+def _hidden_inner(src, w, deps, reps):
+    """The edge src -> w enters an expanded container whose only consumers of that producer's values are marked hide=True:
+    the renderers then attach the edge to the container's first entry node (finding F28)."""
+    if not src or not w or "/" not in w:
+        return False
+    for k, p, c, _v in deps:
+        if k == "data" and c in HIDDEN[0] and src in reps(p):
+            par = c.rsplit("/", 1)[0] if "/" in c else None
+            if par is not None and (w == par or w.startswith(par + "/")):
+                return True
+    return False
+
+
+def by_id_hidden(nodes_list, pid):
+    return any(n["id"] == pid and n.get("hidden") for n in nodes_list)
+
+
 def _check_state(tag, nodes_list, edges_list, tree, deps, input_consumers, sep, value_alias, stats):
     ids = [n["id"] for n in nodes_list]
     if len(ids) != len(set(ids)):
         dup = sorted({i for i in ids if ids.count(i) > 1})
-        raise Violation("c20.node_declared_twice", f"[{tag}] node ids declared more than once: {dup}")
+        coll = _data_id_collisions(dup)
+        flag(Violation("c20.node_declared_twice", f"[{tag}] node ids declared more than once: {dup}" + (f"; the DATA node ids of {coll} coincide" if coll else ""), data_id_concatenation=bool(coll), view="interactive"))
+        if sep:
+            return  # (known finding F26: with two DATA nodes under one id the separate-outputs state cannot be read unambiguously)
     declared = set(ids)
-    missing_nodes = [p for p in tree if p not in declared]
+    shown_hidden = [p for p in HIDDEN[0] if p in declared and not by_id_hidden(nodes_list, p)]
+    if shown_hidden:
+        raise Violation("c20.hidden_node_shown", f"[{tag}] nodes declared with hide=True appear in the diagram: {shown_hidden}")
+    missing_nodes = [p for p in tree if p not in declared and p not in HIDDEN[0]]
     if missing_nodes:
         raise Violation("c20.graph_node_missing", f"[{tag}] graph nodes without a declaration in this state: {missing_nodes}")
     by_id = {n["id"]: n for n in nodes_list}
-    vis = {n["id"] for n in nodes_list if not n.get("hidden")}
+    vis = {n["id"] for n in nodes_list if not n.get("hidden")} - HIDDEN[0]
     for e in edges_list:
         for end in (e["source"], e["target"]):
             if end not in declared:
@@ -335,6 +405,8 @@ def _check_state(tag, nodes_list, edges_list, tree, deps, input_consumers, sep, 
 
     # ---- completeness
     for kind, p, c, v in deps:
+        if p in HIDDEN[0] or c in HIDDEN[0]:
+            continue  # edges that touch a node marked hide=True are left out with it
         rp = reps(p)
         rc = reps(c) if kind != "control" or c == "__end__" else sorted(inside(c)) or reps(c)
         if not rp or not rc:
@@ -373,7 +445,7 @@ def _check_state(tag, nodes_list, edges_list, tree, deps, input_consumers, sep, 
     for q, cons in input_consumers.items():
         for c in cons:
             rc = reps(c)
-            if not rc:
+            if not rc or c in HIDDEN[0]:
                 continue
             if not (in_edges.get(q, set()) & set(rc)):
                 flag(Violation("c20.missing_input_edge", f"[{tag}] input {q!r} is consumed by {c} but no INPUT node listing it is linked to any of {rc} (linked to {sorted(in_edges.get(q, []))})",
@@ -419,7 +491,7 @@ def _check_state(tag, nodes_list, edges_list, tree, deps, input_consumers, sep, 
                 break
         if not ok:
             flag(Violation("c20.spurious_edge", f"[{tag}] {et} edge {u} -> {w} ({e['data'].get('valueName')!r}) corresponds to no {et} dependency", dep=str(et), mode="sep" if sep else "merged",
-                           boundary_renamed=_edge_boundary(src, w)))
+                           boundary_renamed=_edge_boundary(src, w), hidden_inner_consumer=_hidden_inner(src, w, deps, reps)))
         stats["edges_checked"] += 1
 
 
@@ -467,7 +539,10 @@ def _check_mermaid(tag, src, depth, sep, tree, deps, input_consumers, value_alia
     all_ids = declared + subgraphs
     if len(all_ids) != len(set(all_ids)):
         dup = sorted({i for i in all_ids if all_ids.count(i) > 1})
-        raise Violation("c20.mermaid_declared_twice", f"[{tag}] Mermaid ids declared twice: {dup}")
+        coll = _data_id_collisions(dup, san=True)
+        flag(Violation("c20.mermaid_declared_twice", f"[{tag}] Mermaid ids declared twice: {dup}" + (f"; the DATA node ids of {coll} coincide" if coll else ""), data_id_concatenation=bool(coll), view="mermaid"))
+        if sep:
+            return
     known = set(all_ids)
     for u, w, _ in edges:
         for end in (u, w):
@@ -478,7 +553,7 @@ def _check_mermaid(tag, src, depth, sep, tree, deps, input_consumers, value_alia
         return pid.count("/")
 
     containers = {p for p in tree if any(q != p and tree[q] == p for q in tree)}
-    visible = {p for p in tree if level(p) <= depth}
+    visible = {p for p in tree if level(p) <= depth and p not in HIDDEN[0]}
     expanded = {p for p in containers if level(p) < depth}
     back = {_san(p): p for p in tree}
     back[_san("__end__")] = "__end__"
@@ -506,20 +581,30 @@ def _check_mermaid(tag, src, depth, sep, tree, deps, input_consumers, value_alia
         return {x for x in vis if x == path or x.startswith(path + "/")}
 
     # DATA node ids in Mermaid: data_<source>_<output>
-    def data_src(sid):
+    def data_srcs(sid):
+        """Every node the DATA id may belong to (ids are concatenations: with '_' in names there can be two, finding F26)."""
         if not sid.startswith("data_"):
-            return None
+            return []
+        exact = sorted({pth for pth, o in PAIRS[0] if _san(f"data_{pth}_{o}") == sid})
+        if exact:
+            return exact
         best = None
         for p in tree:
             pre = "data_" + _san(p) + "_"
             if sid.startswith(pre) and (best is None or len(p) > len(best)):
                 best = p
-        return best
+        return [best] if best is not None else []
+
+    def data_src(sid):
+        c = data_srcs(sid)
+        return c[0] if c else None
 
     E = set()
     for u, w, style in edges:
         E.add((u, w))
     for kind, p, c, v in deps:
+        if p in HIDDEN[0] or c in HIDDEN[0]:
+            continue
         rp = reps(p)
         rc = reps(c) if kind != "control" or c == "__end__" else (sorted(inside(c)) or reps(c))
         if not rp or not rc or rp[0] == rc[0]:
@@ -533,7 +618,7 @@ def _check_mermaid(tag, src, depth, sep, tree, deps, input_consumers, value_alia
                     ok = True
                 if sep:
                     for d in declared:
-                        if data_src(d) == u and (_san(u), d) in E and (d, _san(w)) in E:
+                        if u in data_srcs(d) and (_san(u), d) in E and (d, _san(w)) in E:
                             ok = True
         if not ok:
             br, cx = _boundary(p, c, value_alias.get(v, {v}), rc)
@@ -568,7 +653,7 @@ def _check_mermaid(tag, src, depth, sep, tree, deps, input_consumers, value_alia
     for q, cons in input_consumers.items():
         for c in cons:
             rc = reps(c)
-            if not rc or _gated_same(c, q):
+            if not rc or _gated_same(c, q) or c in HIDDEN[0]:
                 continue  # (an input that a gate takes is drawn to the gate only, not again to the gate's own targets: deliberate)
             if not (in_edges.get(q, set()) & {_san(x) for x in rc}):
                 flag(Violation("c20.missing_input_edge", f"[{tag}] input {q!r} is consumed by {c} but no input node listing it is linked to any of {rc} (linked to {sorted(in_edges.get(q, []))})",
@@ -578,25 +663,27 @@ def _check_mermaid(tag, src, depth, sep, tree, deps, input_consumers, value_alia
         if u.startswith("input"):
             continue
         if w.startswith("data_"):
-            if data_src(w) is None or _san(data_src(w)) != u:
+            if u not in {_san(x) for x in data_srcs(w)}:
                 raise Violation("c20.mermaid_bad_output_edge", f"[{tag}] {u} --> {w} is not an output edge of {u}")
             continue
-        src = u
-        if u.startswith("data_") and data_src(u) is not None:
-            src = _san(data_src(u))
+        srcs = {u}
+        if u.startswith("data_") and data_srcs(u):
+            srcs = {_san(x) for x in data_srcs(u)}
+        src = sorted(srcs)[0]
         kinds = ("ordering",) if style == "ordering" else ("data", "control")
         ok = False
         for k, p, c, v in deps:
             if k not in kinds:
                 continue
             rc = reps(c) if k != "control" or c == "__end__" else (sorted(inside(c)) or reps(c))
-            if src in {_san(x) for x in reps(p)} and w in {_san(x) for x in rc}:
+            if srcs & {_san(x) for x in reps(p)} and w in {_san(x) for x in rc}:
                 ok = True
                 break
         if not ok:
             unsan = {_san(x): x for x in tree}
             flag(Violation("c20.mermaid_spurious_edge", f"[{tag}] Mermaid edge {u} {'-.->' if style == 'ordering' else '-->'} {w} corresponds to no dependency", style=style,
-                           boundary_renamed=_edge_boundary(unsan.get(src), unsan.get(w))))
+                           boundary_renamed=_edge_boundary(unsan.get(src), unsan.get(w)),
+                           hidden_inner_consumer=any(_hidden_inner(unsan.get(x), unsan.get(w), deps, reps) for x in srcs if unsan.get(x) and unsan.get(w))))
         stats["edges_checked"] += 1
 
 
@@ -632,7 +719,32 @@ def check_case(case, ev):
         ev.discard("construct:" + type(e).__name__ + ":" + str(e).split("\n")[0][:40])
         return
     tree, leaf_path = {}, {}
+    HIDDEN[0] = set()
     _walk(nodes, "", tree, leaf_path)
+    PAIRS[0] = []
+
+    def _pairs(ns, prefix):
+        for x in ns:
+            if x["k"] == "graph":
+                sub = _pairs(x["graph"]["nodes"], prefix + x["name"] + "/")
+                ren = {}
+                for st_ in x.get("renames", []):
+                    if st_.get("kind") == "outputs":
+                        ren.update(st_.get("map", {}))
+                outs_ = [ren.get(o, o) for o in sub]
+                PAIRS[0].extend((prefix + x["name"], o) for o in outs_)
+            else:
+                outs_ = list(x.get("outs", []))
+                PAIRS[0].extend((prefix + x["name"], o) for o in outs_)
+        return [o for x in ns for o in (x.get("outs", []) if x["k"] != "graph" else x.get("flat_outputs", []))]
+
+    _pairs(nodes, "")
+    if HIDDEN[0]:
+        labels.add("nodes_marked_hide")
+    if case.get("trap"):
+        labels.add("names_whose_concatenations_coincide")
+    if (case.get("mutex") or {}).get("paths", [""])[0].endswith("br_s"):
+        labels.add("one_graph_object_wrapped_twice")
     deps, input_consumers = _deps({**case, "nodes": nodes}, leaf_path, tree)
     GATED[0] = {}
     gparams = {}
